@@ -299,7 +299,7 @@ CLAIMED = {
              '(ASan+UBSan harness that #includes decode.c) against the compiled model and against the reference, exhaustively over all '
              'strings of length <= 4 (quick) / 5 (thorough) over 14 decoder-relevant symbols plus structured random encodings.',
         note='Trusted: Lean kernel (axioms propext, Classical.choice, Quot.sound), the statement of Spec/Decode.lean, the correspondence run '
-             '(generator reach), gen_tables.py; ctype functions are ASCII (C / C.utf8 locale); out-of-bounds access of the C code is observed by '
+             '(generator reach), gen_tables.py and gen_grammar.py (bison --xml report of parse.y -> Gen/Grammar.lean); ctype functions are ASCII (C / C.utf8 locale); out-of-bounds access of the C code is observed by '
              'sanitizers in the harness, not proved (no index-level model yet).',
         technique='Lean 4 proof of model = reference decoder + differential execution model/implementation'),
 }
